@@ -10,8 +10,19 @@ from common import rat
 SUPPORTED = {"bool", "int8", "int16", "int32", "uint8", "uint16", "uint32", "float16", "float32"}
 
 
+INF_ENC = 2 ** 200  # Sp.infEnc: +-inf of the float dtypes as a rational above every finite float16 / float32 value (order embedding)
+
+
 def rats(a: Any) -> List[List[int]]:
-    return [rat(float(x)) for x in np.asarray(a, dtype=np.float64).reshape(-1)]
+    out = []
+    for x in np.asarray(a, dtype=np.float64).reshape(-1):
+        if np.isinf(x):
+            out.append([INF_ENC if x > 0 else -INF_ENC, 1])
+        elif np.isnan(x):
+            raise TypeError("NaN is not modelled")
+        else:
+            out.append(rat(float(x)))
+    return out
 
 
 def leaf_json(spec: Any) -> Dict[str, Any]:
